@@ -498,4 +498,10 @@ theorem nonvacuous_hasPlaceholderFunc_generated :
     FuncsDom.hasPlaceholderFunc "1" ⟨"int", "${1}"⟩ = .ok false := by
   decide +kernel
 
+/-- `dom.SearchEqual(ph)(val)` (with which the placeholder resolver looks up the coordinates of an unresolved value):
+    `cmp.Equal(val, ph)` — for a string `ph` the model's `searchEqualStr`, for all leaf values -/
+theorem SearchEqual_generated_eq_model (ph : String) (v : Scalar) :
+    FuncsDom.SearchEqual ⟨"string", ph⟩ v = .ok (Analytics.searchEqualStr ph v) :=
+  FuncsDomMatcher.SearchEqual_generated_eq_model ph v
+
 end Ytk.C19
